@@ -13,7 +13,7 @@ RULE_TEXT = ("C07-K buffer discipline of process, decided on the linear normal f
              "of the single generic body (all N, all chunkings): K1 the adapter fills cmd_buf[read..] and read_end = read + "
              "count; K2 the terminator scan covers exactly cmd_buf[read..read_end], term = read + pos, the predicate denotes "
              "{10}; K3 run receives cmd_buf[proc..=term]; K4 after run proc' = term + 1 - len(remaining), read' = term + 1; "
-             "K5 after the scan read' = read_end; K6 consumed bytes at the front are reclaimed (copy_within(proc..read_end, 0), "
+             "K5 after the scan read' = read_end; K7 the response buffer is written, flushed and cleared per message (typestate as in C10-T4); K6 consumed bytes at the front are reclaimed (copy_within(proc..read_end, 0), "
              "read' = read_end - proc, proc' = 0) whenever proc > 0 before fullness is judged, and input is discarded "
              "(read' = 0 without copy) only when proc = 0 and the buffer is full. C07-A: every future is awaited in place, "
              "no hand-written poll machinery (a Pending can only suspend, never change results).")
@@ -30,14 +30,25 @@ def S(t):
 def run(ck):
     ck.trust("rustc HIR/typeck", "factdump", "pathsum", "linform")
     ck.assume("a conforming Adapter::read returns count <= dst.len()",
-              "equality of observable behaviour across chunkings follows from K1-K6 and C07-A by the argument in DESIGN.md; "
+              "equality of observable behaviour across chunkings follows from K1-K7 and C07-A by the argument in DESIGN.md; "
               "messages longer than N are outside the statement")
     lib = ctx.lib(ck)
     if lib is None:
         return
+    rule_K(ck, lib, "C07")
+
+
+def rule_K(ck, lib, pfx):
+    """Buffer discipline of process; rule ids are prefixed with `pfx` (C07-K.. or, reused by C08, C08-P..)."""
+    import c10
     exits, ps = ctx.summarize(lib, PROCESS, ck)
-    if not ck.anchor("C07-K", PROCESS, exits):
+    if not ck.anchor(pfx + "-K", PROCESS, exits):
         return
+    # K7: the response buffer is drained (written, flushed, cleared) per message, so its N bytes are available to
+    # every message no matter how many messages one read delivers
+    rid = c10.identify_res_buf(exits)
+    if ck.judge(rid is not None, pfx + "-K7", "process:res_buf", "response buffer identified", "cannot identify the response buffer passed to run"):
+        c10.response_typestate(ck, exits, rid, pfx + "-K7")
     # ---- roles
     reads = set()
     runs = set()
@@ -47,11 +58,11 @@ def run(ck):
                 reads.add(S(e[2][1]))
             if e[0] == "call" and e[1] == RUN:
                 runs.add(S(e[2][1]))
-    if not ck.judge(len(reads) == 1 and len(runs) == 1, "C07-K", "process:anchors", "one read site, one run site", "expected exactly one Adapter::read destination and one run input, found %d / %d" % (len(reads), len(runs))):
+    if not ck.judge(len(reads) == 1 and len(runs) == 1, pfx + "-K", "process:anchors", "one read site, one run site", "expected exactly one Adapter::read destination and one run input, found %d / %d" % (len(reads), len(runs))):
         return
     dst = reads.pop()
     ok = dst[0] == "index" and dst[1][0] == "loopvar" and dst[2][0] == "struct" and dst[2][1].endswith("RangeFrom") and dict(dst[2][2])["start"][0] == "loopvar"
-    if not ck.judge(ok, "C07-K1", "process:read-destination", "read(&mut cmd_buf[read_offset..])", "Adapter::read destination is %s, not cmd_buf[read..]" % show_term(dst)):
+    if not ck.judge(ok, pfx + "-K1", "process:read-destination", "read(&mut cmd_buf[read_offset..])", "Adapter::read destination is %s, not cmd_buf[read..]" % show_term(dst)):
         return
     buf = dst[1]
     R_out = dict(dst[2][2])["start"]
@@ -59,11 +70,11 @@ def run(ck):
     buf_id = buf[1]
     data = runs.pop()
     ok = data[0] == "index" and data[1][0] == "loopvar" and data[1][1] == buf_id and data[2][0] == "call" and data[2][1].endswith("RangeInclusive::new")
-    if not ck.judge(ok, "C07-K3", "process:run-input", "run(&cmd_buf[proc_offset..=terminator_pos])", "run receives %s, not cmd_buf[proc..=term]" % show_term(data)):
+    if not ck.judge(ok, pfx + "-K3", "process:run-input", "run(&cmd_buf[proc_offset..=terminator_pos])", "run receives %s, not cmd_buf[proc..=term]" % show_term(data)):
         return
     P_in, term = data[2][2]
     ok = P_in[0] == "loopvar"
-    if not ck.judge(ok, "C07-K3", "process:run-input:start", "run input starts at the processed offset %s" % show_term(P_in), "run input starts at %s (not a loop-carried offset)" % show_term(P_in)):
+    if not ck.judge(ok, pfx + "-K3", "process:run-input:start", "run input starts at the processed offset %s" % show_term(P_in), "run input starts at %s (not a loop-carried offset)" % show_term(P_in)):
         return
     proc_id = P_in[1]
     # term = R_in + pos
@@ -71,7 +82,7 @@ def run(ck):
     pos_atoms = [a for a in lt.coeffs if a[0] == "payload" and a[2] == SOME and a[1][0] == "call" and a[1][1].endswith("::position")]
     rin_atoms = [a for a in lt.coeffs if a[0] == "loopvar" and a[1] == read_id]
     ok = len(pos_atoms) == 1 and len(rin_atoms) == 1 and lt.const == 0 and len(lt.coeffs) == 2 and all(v == 1 for v in lt.coeffs.values())
-    if not ck.judge(ok, "C07-K2", "process:terminator-pos", "term = read + pos: %r" % lt, "terminator position is %r, expected read_offset + position" % lt):
+    if not ck.judge(ok, pfx + "-K2", "process:terminator-pos", "term = read + pos: %r" % lt, "terminator position is %r, expected read_offset + position" % lt):
         return
     pos = pos_atoms[0]
     R_in = rin_atoms[0]
@@ -79,7 +90,7 @@ def run(ck):
     scan = posc[2][0]   # iter(slice)
     closure = posc[2][1]
     okc = closure[0] == "closure" and bytecls.denote_closure(ps.closures.get(closure[1]), lib) == frozenset([10])
-    ck.judge(okc, "C07-K2", "process:terminator-predicate", "scan predicate denotes {10}", "scan predicate does not denote exactly the newline byte")
+    ck.judge(okc, pfx + "-K2", "process:terminator-predicate", "scan predicate denotes {10}", "scan predicate does not denote exactly the newline byte")
     # scan range
     sl = scan[2][0] if scan[0] == "call" and scan[1].endswith("::iter") else None
     ok = sl is not None and sl[0] == "index" and sl[1][0] == "loopvar" and sl[1][1] == buf_id and sl[2][0] == "struct" and sl[2][1].endswith("::Range")
@@ -88,13 +99,13 @@ def run(ck):
         f = dict(sl[2][2])
         ok = S(f["start"]) == R_in
         read_end = f["end"]
-    if not ck.judge(ok, "C07-K2", "process:scan-range", "scan covers cmd_buf[read_offset..read_end]", "scan covers %s, expected cmd_buf[read..read_end]" % (show_term(sl) if sl else show_term(scan))):
+    if not ck.judge(ok, pfx + "-K2", "process:scan-range", "scan covers cmd_buf[read_offset..read_end]", "scan covers %s, expected cmd_buf[read..read_end]" % (show_term(sl) if sl else show_term(scan))):
         return
     le = lin(read_end)
     cnt = [a for a in le.coeffs if a[0] == "payload" and a[2] == OK and a[1][0] == "call" and a[1][1] == ADAPTER + "read"]
     rout = [a for a in le.coeffs if a == S(R_out)]
     ok = len(cnt) == 1 and len(rout) == 1 and le.const == 0 and len(le.coeffs) == 2 and all(v == 1 for v in le.coeffs.values())
-    ck.judge(ok, "C07-K1", "process:read_end", "read_end = read + count: %r" % le, "scan end is %r, expected read_offset + count" % le)
+    ck.judge(ok, pfx + "-K1", "process:read_end", "read_end = read + count: %r" % le, "scan end is %r, expected read_offset + count" % le)
     LE = le
 
     # ---- per path
@@ -112,7 +123,7 @@ def run(ck):
         if x.extra == inner_site:
             # K4: inner back-edge
             n_inner += 1
-            if not ck.judge(len(runcalls) == 1, "C07-K4", "process:inner#%d:run-once" % n_inner, "one run per terminator", "inner path runs %d times" % len(runcalls), data=data_):
+            if not ck.judge(len(runcalls) == 1, pfx + "-K4", "process:inner#%d:run-once" % n_inner, "one run per terminator", "inner path runs %d times" % len(runcalls), data=data_):
                 continue
             rt = S(("call",) + runcalls[0][1:])
             lenrem = Lin({("call", "core::slice::len", (rt,)): 1})
@@ -126,8 +137,8 @@ def run(ck):
             if empty is True:
                 want_p = lt + Lin({}, 1)
                 lp = lp.subst(("call", "core::slice::len", (rt,)), Lin())
-            ck.judge(lr == want_r, "C07-K4", "process:inner#%d:read'" % n_inner, "read' = term + 1", "after a terminator read' = %r, expected term + 1 = %r" % (lr, want_r), data=data_)
-            ck.judge(lp == want_p, "C07-K4", "process:inner#%d:proc'" % n_inner, "proc' = term + 1 - len(remaining)%s" % (" (remaining empty)" if empty else ""),
+            ck.judge(lr == want_r, pfx + "-K4", "process:inner#%d:read'" % n_inner, "read' = term + 1", "after a terminator read' = %r, expected term + 1 = %r" % (lr, want_r), data=data_)
+            ck.judge(lp == want_p, pfx + "-K4", "process:inner#%d:proc'" % n_inner, "proc' = term + 1 - len(remaining)%s" % (" (remaining empty)" if empty else ""),
                      "after run proc' = %r, expected term + 1 - len(remaining) = %r" % (lp, want_p), data=data_)
         else:
             # outer back-edge: tail after the scan
@@ -160,10 +171,10 @@ def run(ck):
                 a = copies[0][2]
                 okc = len(a) == 3 and S(a[0])[0] == "loopvar" and a[0][1] == buf_id and a[1][0] == "struct" and a[1][1].endswith("::Range") \
                     and lin(dict(a[1][2])["start"]) == LP and lin(dict(a[1][2])["end"]) == LE and a[2] == ("lit", "int", 0)
-                ck.judge(okc and pc is True, "C07-K6", key + ":compaction", "copy_within(proc..read_end, 0) under proc > 0",
+                ck.judge(okc and pc is True, pfx + "-K6", key + ":compaction", "copy_within(proc..read_end, 0) under proc > 0",
                          "compaction is %s (expected copy_within(proc..read_end, 0) under proc > 0)" % ([show_term(z) for z in a]), data=data_)
                 okr = lp == Lin() and (lr == LE - LP or (lr == Lin() and full is not None and full[0] and full[1] == LE - LP))
-                ck.judge(okr, "C07-K6", key + ":offsets", "after compaction proc' = 0, read' = read_end - proc",
+                ck.judge(okr, pfx + "-K6", key + ":offsets", "after compaction proc' = 0, read' = read_end - proc",
                          "after compaction (proc', read') = (%r, %r), expected (0, read_end - proc)" % (lp, lr), data=data_)
             elif lr == Lin() and lp == Lin() and not (LE == Lin()):
                 # discard without copy
@@ -175,11 +186,11 @@ def run(ck):
                     why += "although proc > 0: the consumed prefix must be reclaimed instead"
                 else:
                     why += "without the buffer being full"
-                ck.judge(ok, "C07-K6", key + ":discard", "input discarded only when proc = 0 and the buffer is full", why, data=data_)
+                ck.judge(ok, pfx + "-K6", key + ":discard", "input discarded only when proc = 0 and the buffer is full", why, data=data_)
             else:
                 ok = lr == LE and (lp == LP or lp == Lin()) and pc is False
-                ck.judge(ok, "C07-K5", key + ":keep", "nothing to reclaim: read' = read_end, proc' = proc (= 0)",
+                ck.judge(ok, pfx + "-K5", key + ":keep", "nothing to reclaim: read' = read_end, proc' = proc (= 0)",
                          "tail path leaves (proc', read') = (%r, %r) with proc>0=%s; expected (proc, read_end) under proc = 0" % (lp, lr, pc), data=data_)
-    ck.floor("C07-K4", "inner-loop paths (one per terminator)", n_inner, 2)
-    ck.floor("C07-K6", "tail paths after the scan", n_tail, 3)
+    ck.floor(pfx + "-K4", "inner-loop paths (one per terminator)", n_inner, 2)
+    ck.floor(pfx + "-K6", "tail paths after the scan", n_tail, 3)
     c02.async_rules(ck, lib, "C07-A")
